@@ -386,7 +386,12 @@ func (mon *monitor) poll() {
 					continue
 				}
 				at := last.Sub(mon.t0)
-				simrt.Failf("route-removed-under-live-connection", "a route learned over the registered, open connection disappeared although that connection was never torn down ("+parts[0]+")",
+				what := parts[0]
+				if strings.HasPrefix(k, "cidr|10.68.") {
+					// announced by the peer whose reconnect the harness plays
+					what = "cidr, harness-played reconnect"
+				}
+				simrt.Failf("route-removed-under-live-connection", "a route learned over the registered, open connection disappeared although that connection was never torn down ("+what+")",
 					"%s lost %s (next hop %s) while link %d stayed registered and open since t=%v; last refreshed at t=%v, now t=%v; relay=%v",
 					nd.Name, k, m.Nodes[st.p].Name, st.link.ID, st.firstSeen, at, now, nd.A.VerifRelaySizes()["tcp"])
 			}
